@@ -245,6 +245,7 @@ type stOp struct {
 	kind byte
 	id   []byte
 	val  stVal
+	cap  uint64 // kind 'c': close, then reopen with this capacity in MB (a configuration change between runs)
 }
 
 func parseOps(s string) []stOp {
@@ -261,6 +262,9 @@ func parseOps(s string) []stOp {
 			ops = append(ops, stOp{kind: 'g', id: unhx(f[1])})
 		case "r":
 			ops = append(ops, stOp{kind: 'r'})
+		case "c":
+			mb, _ := strconv.ParseUint(f[1], 10, 64)
+			ops = append(ops, stOp{kind: 'c', cap: mb})
 		}
 	}
 	return ops
@@ -277,6 +281,8 @@ func opsString(ops []stOp) string {
 			p[i] = "p," + hx(o.id) + "," + o.val.String()
 		case 'g':
 			p[i] = "g," + hx(o.id)
+		case 'c':
+			p[i] = fmt.Sprintf("c,%d", o.cap)
 		default:
 			p[i] = "r"
 		}
@@ -288,7 +294,7 @@ func idPool(ops []stOp) [][]byte {
 	var ids [][]byte
 	seen := map[string]bool{}
 	for _, o := range ops {
-		if o.kind == 'r' {
+		if o.kind == 'r' || o.kind == 'c' {
 			continue
 		}
 		if !seen[string(o.id)] {
@@ -337,6 +343,13 @@ func stHistory(c *Ctx, kind string, capMB uint64, node [32]byte, ops []stOp) {
 			case 'g':
 				res = s.get(o.id)
 			case 'r':
+				if err := s.reopen(); err != nil {
+					steps = append(steps, "openerr")
+					panic("reopen: " + err.Error())
+				}
+				res = "-"
+			case 'c':
+				s.capMB = o.cap
 				if err := s.reopen(); err != nil {
 					steps = append(steps, "openerr")
 					panic("reopen: " + err.Error())
@@ -535,6 +548,197 @@ func stCorpus(c *Ctx, kind string) {
 	stHistory(c, kind, 1, z, []stOp{{kind: 'p', id: key32(7, 7), val: stVal{long: true, vid: 400, n: 1200000}}, {kind: 'p', id: key32(7, 8), val: stVal{raw: []byte{1}}}, {kind: 'r'}})
 }
 
+// Directed boundary histories: the counter lands exactly on a threshold (and one below / one above), then the store
+// is reopened.  `target` bytes are written as distinct items of 32+len bytes each; reopening with capacity `reopenMB`.
+func stBoundary(c *Ctx, kind string, fillMB uint64, target uint64, reopenMB uint64, node [32]byte, seed int) {
+	var ops []stOp
+	left := target
+	i := 0
+	for left > 0 {
+		chunk := uint64(200000 + 7919*((seed+i)%13))
+		if left <= chunk+40 {
+			chunk = left // the last item makes the sum exact (32 + len = chunk, len >= 8)
+		}
+		// ids close to the node first, so nothing is refused and keys are distinct
+		id := make([]byte, 32)
+		id[0] = byte(i + 1)
+		id[31] = byte(seed)
+		n := int(chunk) - 32
+		var v stVal
+		if n < 16 {
+			v = stVal{raw: make([]byte, n)}
+		} else {
+			v = stVal{long: true, vid: uint64(9000 + seed*100 + i), n: n}
+		}
+		ops = append(ops, stOp{kind: 'p', id: xor32(id, node[:]), val: v})
+		left -= chunk
+		i++
+	}
+	if reopenMB == fillMB {
+		ops = append(ops, stOp{kind: 'r'})
+	} else {
+		ops = append(ops, stOp{kind: 'c', cap: reopenMB})
+	}
+	// one more put and a plain reopen afterwards: the store must go on working
+	id := make([]byte, 32)
+	id[0] = 0x7f
+	ops = append(ops, stOp{kind: 'p', id: xor32(id, node[:]), val: stVal{raw: []byte{1, 2, 3}}}, stOp{kind: 'r'})
+	c.Count("boundary_history")
+	stHistory(c, kind, fillMB, node, ops)
+}
+
+func stBoundaries(c *Ctx, kind string) {
+	r := c.Rng
+	seed := 0
+	for _, mb := range []uint64{1, 2, 3} {
+		cp := mb * 1000000
+		five := cp / 20
+		for _, d := range []int64{-1, 0, 1} {
+			// the 95% rule of NewStorage: counter == capacity - 5%, one below, one above
+			seed++
+			stBoundary(c, kind, mb, uint64(int64(cp-five)+d), mb, genNode(c), seed)
+			// the prune-on-open rule: counter == capacity of the reopening configuration, +-1
+			// (filled under a larger capacity, reopened with a smaller one: a configuration change)
+			seed++
+			stBoundary(c, kind, mb+1+uint64(r.Intn(2)), uint64(int64(cp)+d), mb, genNode(c), seed)
+			// and the 95% rule under a configuration change
+			if d == 0 {
+				seed++
+				stBoundary(c, kind, mb+1, cp-five, mb, genNode(c), seed)
+			}
+		}
+	}
+}
+
+// ---------------------------------------------------------------- retained slices by value size class (C04)
+
+// For every size class a few items are stored; a slice obtained from Get is kept while the store serves other Gets
+// (other tiny values, other ids, the same id), Gets from several goroutines, puts, and garbage collections; the kept
+// slice must still hold the bytes that were put.  Output: per size class the number of kept slices that changed.
+func stRetainClasses(c *Ctx, round int) {
+	classes := []int{0, 1, 2, 4, 7, 8, 9, 16, 32, 300, 20000, 300000}
+	head := fmt.Sprintf("retainx %d", round)
+	changed := map[int]int{}
+	checked := 0
+	p, msg := guard(func() {
+		dir := stTempDir()
+		defer os.RemoveAll(dir)
+		s, err := stOpen(dir, 1000, zeroNode())
+		if err != nil {
+			panic(err)
+		}
+		s.pruned = false
+		defer func() { s.close() }()
+		r := NewRng(uint64(round)*7919 + 5)
+		const per = 6
+		idOf := func(ci, j int) []byte {
+			id := make([]byte, 32)
+			id[0] = byte(ci + 1)
+			id[1] = byte(j + 1)
+			id[31] = byte(round)
+			return id
+		}
+		valOf := func(ci, j int) []byte {
+			n := classes[ci]
+			if n < 16 {
+				b := make([]byte, n)
+				for k := range b {
+					b[k] = byte(0x10*ci + 0x31*j + k + 1)
+				}
+				return b
+			}
+			return stVal{long: true, vid: uint64(ci*100 + j + 1), n: n}.Bytes()
+		}
+		for ci := range classes {
+			for j := 0; j < per; j++ {
+				if err := s.cs.Put(nil, idOf(ci, j), valOf(ci, j)); err != nil {
+					panic(err)
+				}
+			}
+		}
+		type kept struct {
+			ci, j int
+			b     []byte
+		}
+		var ks []kept
+		keep := func(ci, j int) {
+			b, err := s.cs.Get(nil, idOf(ci, j))
+			if err != nil {
+				panic(err)
+			}
+			ks = append(ks, kept{ci, j, b})
+		}
+		churn := func() {
+			// other tiny values, other ids, the same ids again
+			for k := 0; k < 40; k++ {
+				ci := r.Intn(len(classes))
+				if r.Intn(2) == 0 {
+					ci = r.Intn(7) // tiny classes
+				}
+				_, _ = s.cs.Get(nil, idOf(ci, r.Intn(per)))
+			}
+		}
+		for ci := range classes {
+			keep(ci, 0)
+			churn()
+			keep(ci, 1)
+			// immediately followed by a Get of another tiny value and of the same id
+			_, _ = s.cs.Get(nil, idOf((ci+1)%7, 2))
+			_, _ = s.cs.Get(nil, idOf(ci, 1))
+			keep(ci, 2)
+			runtime.GC()
+			churn()
+		}
+		// Gets from several goroutines
+		var wg sync.WaitGroup
+		for g := 0; g < 4; g++ {
+			wg.Add(1)
+			go func(g int) {
+				defer wg.Done()
+				rr := NewRng(uint64(round)*31 + uint64(g))
+				for k := 0; k < 400; k++ {
+					_, _ = s.cs.Get(nil, idOf(rr.Intn(len(classes)), rr.Intn(per)))
+				}
+			}(g)
+		}
+		for ci := range classes {
+			keep(ci, 3)
+		}
+		wg.Wait()
+		// overwrites of the kept ids with other bytes, a flush, a collection
+		for ci := range classes {
+			n := classes[ci]
+			_ = s.cs.Put(nil, idOf(ci, 0), r.Bytes(n))
+		}
+		_ = s.db.Flush()
+		runtime.GC()
+		churn()
+		for _, k := range ks {
+			checked++
+			if !bytes.Equal(k.b, valOf(k.ci, k.j)) {
+				changed[classes[k.ci]]++
+			}
+		}
+	})
+	if p {
+		c.Emit("%s | panic %s", head, msg)
+		return
+	}
+	total := 0
+	var parts []string
+	for _, n := range classes {
+		if changed[n] > 0 {
+			parts = append(parts, fmt.Sprintf("%d:%d", n, changed[n]))
+			total += changed[n]
+		}
+	}
+	cl := "-"
+	if len(parts) > 0 {
+		cl = strings.Join(parts, "+")
+	}
+	c.Emit("%s | ok checked=%d changed=%d classes=%s", head, checked, total, cl)
+}
+
 func stThr(c *Ctx, capMB uint64) {
 	a, b := spebble.VerifThresholds(capMB)
 	c.Emit("thr %d | ok %d %d", capMB, a, b)
@@ -684,6 +888,8 @@ func stExecLine(c *Ctx, ln string) {
 	case f[0] == "thr":
 		n, _ := strconv.ParseUint(f[1], 10, 64)
 		stThr(c, n)
+	case f[0] == "retainx":
+		stRetainClasses(c, atoi(f[1]))
 	case f[0] == "retain":
 		stRetain(c, atoi(f[1]), atoi(f[2]), atoi(f[3]), atoi(f[4]))
 	case f[0] == "conc":
@@ -753,7 +959,13 @@ func runStorage(c *Ctx, prop string) {
 		}
 		stXor(c, make([]byte, 32), make([]byte, 32))
 		stExtraGen(c, prop)
+		for i := 0; i < 3; i++ {
+			stRetainClasses(c, i)
+		}
 		if thorough {
+			for i := 3; i < 40; i++ {
+				stRetainClasses(c, i)
+			}
 			stRetain(c, 200000, 300, 50, 100000)
 		} else {
 			stRetain(c, 120000, 300, 50, 60000)
@@ -819,6 +1031,7 @@ func runStorage(c *Ctx, prop string) {
 			ops = append(ops, stOp{kind: 'r'})
 			stHistory(c, kind, capMB, node, ops)
 		}
+		stBoundaries(c, kind)
 		stExtraGen(c, prop)
 	}
 }
